@@ -389,20 +389,12 @@ func runC05(x *Exec) {
 					// one write time for everything the transaction wrote
 					if newVers == 1 && len(touched) > 0 {
 						wt, err := lay.WalkVersion(w.S.Bucket, newName)
-						if err == nil && len(wt.Missing) == 0 && len(wt.Problems) == 1 && strings.Contains(wt.Problems[0], "records Size=") && len(leakable) > 0 {
-							// KF-14, invisible form: an entry written by a rolled-back transaction (here a deleted
-							// row, so no SELECT shows it) is part of the committed tree; the recorded size is the
-							// restored counter, the tree holds the leaked entries on top
-							var leaked []string
-							for _, e := range wt.Entries {
-								if leakable[e.Key.Canon()] && !e.Live() {
-									leaked = append(leaked, e.Key.Canon())
-								}
-							}
-							if len(leaked) > 0 {
-								x.Fail("C05-rollback-leak", "%s: entries written by a rolled-back transaction are stored in the committed tree (deleted rows %v): %s", desc, leaked, wt.Err())
-								return
-							}
+						if leaked := wt.UncountedLeak(leakable); err == nil && leaked != nil {
+							// KF-14, invisible form: an entry written by a rolled-back transaction (a deleted row, or
+							// one a later INSERT overwrote without counting it) is part of the committed tree; the
+							// recorded size is the restored counter
+							x.Fail("C05-rollback-leak", "%s: entries written by a rolled-back transaction are stored in the committed tree uncounted (keys %v): %s", desc, leaked, wt.Err())
+							return
 						}
 						if err != nil || !wt.OK() {
 							x.Fail("C05-version-incomplete", "%s: %v %s", desc, err, wt.Err())
